@@ -4,10 +4,16 @@
 #![allow(clippy::type_complexity)]
 #![allow(unexpected_cfgs)]
 
+mod canon;
+mod decode;
+mod env;
 mod framework;
+mod gen;
 mod panics;
+mod pipeline;
 mod props;
 mod rng;
+mod tirgen;
 
 use framework::{Env, Tier};
 
@@ -32,6 +38,20 @@ fn main() {
             for p in props::all() {
                 println!("{}", p.id());
             }
+        }
+        "gen" => {
+            // debug aid: print the program generated for (property, phase, idx, seed)
+            let id = args.get(2).cloned().unwrap_or_else(|| usage());
+            let phase = args.get(3).cloned().unwrap_or_else(|| usage());
+            let idx: u64 = args.get(4).and_then(|s| s.parse().ok()).unwrap_or(0);
+            let seed: u64 = args.get(5).and_then(|s| s.parse().ok()).unwrap_or(1);
+            let mut rng = rng::Rng::for_case(seed, &id, &phase, idx);
+            let cfg = gen::build::Cfg::default();
+            eprintln!("generating...");
+            let g = gen::build::generate(&mut rng, &cfg);
+            eprintln!("printing...");
+            println!("{}", gen::ast::print_program(&g.prog, gen::ast::Layout::plain()));
+            eprintln!("tags: {:?}", g.prog.tags);
         }
         "check" => {
             let id = args.get(2).cloned().unwrap_or_else(|| usage());
